@@ -18,8 +18,12 @@ where
         }
     }
 
+    #[cfg(geo_booleanop_verif)]
+    super::verif::on_sort_start();
     let mut sorted = false;
     while !sorted {
+        #[cfg(geo_booleanop_verif)]
+        super::verif::on_sort_pass(result_events.len());
         sorted = true;
         for i in 1..result_events.len() {
             if result_events[i - 1] < result_events[i] {
